@@ -146,6 +146,47 @@ def gen_deep_cancel_history(rng, tier):
             "fund_seed": rng.randrange(1 << 30), "scalars": rng.choice([None] * 10 + ["numpy", "int"])}
 
 
+def gen_churn_history(rng, tier):
+    """accumulation: hundreds of short-lived orders with a lifetime that are cancelled or filled long before they
+    would expire, next to a few resting orders whose expiry must still happen exactly on time."""
+    tick = rng.choice([1.0, 0.5, 0.1])
+    base = 1000
+    ops = [["R", True]]
+    n_sub = 0
+    side = rng.random() < 0.5          # the side that is churned
+    keepers = []
+    for _ in range(rng.randint(2, 5)):   # long-lived resting orders with different lifetimes
+        ops.append(["L", side, (base + (-(rng.randint(20, 40)) if side else rng.randint(20, 40))) * tick, rng.randint(1, 3),
+                    rng.choice([5, 11, 23, 50, 90]), 0])
+        n_sub += 1
+    rounds = rng.randint(60, 220)
+    for i in range(rounds):
+        far = rng.randint(45, 60)
+        ttl = rng.choice([30, 60, 120, 400])
+        ops.append(["L", side, (base + (-far if side else far)) * tick, 1, ttl, 1])
+        k = n_sub
+        n_sub += 1
+        r = rng.random()
+        if r < 0.7:
+            ops.append(["C", k])                      # cancelled long before its lifetime ends
+        elif r < 0.85:
+            ops.append(["L", not side, (base + (-far if side else far)) * tick, 1, 1, 2])   # filled instead
+            n_sub += 1
+        if rng.random() < 0.12:
+            ops.append(["T"])
+        if rng.random() < 0.03:
+            ops.append(["L", side, (base + (-(rng.randint(20, 40)) if side else rng.randint(20, 40))) * tick, 1,
+                        rng.choice([3, 7, 15]), 0])
+            n_sub += 1
+    for _ in range(rng.randint(10, 100)):
+        ops.append(["T"])
+        if rng.random() < 0.2:
+            ops.append(["M", not side, 1, None, 3])   # a taker: whatever should have expired must not trade
+            n_sub += 1
+    return {"tick": tick, "p0": base * tick, "auto": True, "mode": "churn", "ops": ops,
+            "fund_seed": rng.randrange(1 << 30), "scalars": None}
+
+
 class DirectRun:
     def __init__(self, case):
         from pams.market import Market
